@@ -12,6 +12,8 @@ import (
 
 	"github.com/EliCDavis/polyform/modeling"
 	"github.com/EliCDavis/polyform/modeling/primitives"
+	"github.com/EliCDavis/vector/vector2"
+	"github.com/EliCDavis/vector/vector3"
 	"polyverif/internal/c01/ops"
 	"polyverif/internal/gen"
 	"polyverif/internal/ref"
@@ -30,7 +32,7 @@ func Spec() *run.Spec {
 			"fingerprint = topology, index list, PrimitiveCount, AttributeLength (when unambiguous), material list (count, pointer, field values), attribute names per arity and every attribute value by raw IEEE bits, read only through the accessors named in the property",
 			"slices handed to polyform (attribute data, index lists, material lists) are allocated per call and never touched again by the harness; mutation through caller-kept slices is documented sharing and out of reach",
 			"operations are only generated with their precondition met; a panic or error is not a C01 verdict (the sweep still runs after it)",
-			"results with more than 400 vertices or 3000 indices are swept once but not kept in the pool (bounds of the exploration)",
+			"results with more than 400 vertices or 3000 indices are swept once but not kept in the pool (bounds of the exploration); phase large-bases: pool ≤ 5, one base of 32769 … 131073 vertices, 8–16 steps, bounds 420000 vertices / 1300000 indices",
 		},
 		MinNontrivial: map[string]int{"quick": 400, "thorough": 10000},
 		MinObserved: map[string]int64{
@@ -47,6 +49,12 @@ func Spec() *run.Spec {
 				}
 				return 1000
 			}, Run: history, Batch: 25, CPUBudgetS: 60},
+			{Name: "large-bases", Cases: func(t string) int {
+				if t == "thorough" {
+					return 60
+				}
+				return 6
+			}, Run: history, Batch: 1, CPUBudgetS: 300},
 		},
 	}
 }
@@ -133,6 +141,11 @@ type hist struct {
 	names  []string
 	// evidence
 	spareSiblingPairs int
+	// bounds of the exploration
+	large   bool
+	poolCap int
+	maxV    int
+	maxI    int
 }
 
 func (h *hist) add(m modeling.Mesh, origin string, parent int, viaApp bool, protect map[int]bool) *live {
@@ -140,7 +153,7 @@ func (h *hist) add(m modeling.Mesh, origin string, parent int, viaApp bool, prot
 	l := &live{id: h.nextID, m: m, snap: s, prims: primsOf(m), origin: origin, parent: parent, viaApp: viaApp}
 	l.attrN = attrLenOf(m, s)
 	h.nextID++
-	if len(h.pool) < 8 {
+	if len(h.pool) < h.poolCap {
 		h.pool = append(h.pool, l)
 		return l
 	}
@@ -158,11 +171,11 @@ func (h *hist) add(m modeling.Mesh, origin string, parent int, viaApp bool, prot
 	return l
 }
 
-func tooBig(m modeling.Mesh) bool {
-	if m.Indices().Len() > 3000 {
+func (h *hist) tooBig(m modeling.Mesh) bool {
+	if m.Indices().Len() > h.maxI {
 		return true
 	}
-	return ref.AttrLen(m) > 400
+	return ref.AttrLen(m) > h.maxV
 }
 
 // spare: does any backing slice of m have cap > len (evidence only).
@@ -286,12 +299,12 @@ func (h *hist) sweep(opName, desc string, base *live, extra []*live) {
 func (h *hist) apply(opIdx int, base *live, seed int64, protect map[int]bool) (made bool, results []*live) {
 	op := table[opIdx]
 	var operands []*live
-	env := &ops.Env{Valid: true, Other: func(r *rand.Rand, like modeling.Mesh) modeling.Mesh {
+	env := &ops.Env{Valid: true, Large: h.large, Other: func(r *rand.Rand, like modeling.Mesh) modeling.Mesh {
 		// half of the time a live mesh of the same topology, else a fresh small one (it joins the sweep as operand)
 		if r.Intn(2) == 0 {
 			var same []*live
 			for _, l := range h.pool {
-				if l.m.Topology() == like.Topology() && !tooBig(l.m) {
+				if l.m.Topology() == like.Topology() && !h.tooBig(l.m) {
 					same = append(same, l)
 				}
 			}
@@ -345,7 +358,7 @@ func (h *hist) apply(opIdx int, base *live, seed int64, protect map[int]bool) (m
 	}
 	var fresh []*live
 	for k, o := range outs {
-		if tooBig(o) {
+		if h.tooBig(o) {
 			h.res.Count("results_not_pooled_too_big", 1)
 			l := &live{id: h.nextID, m: o, snap: ref.Snap(o), prims: primsOf(o), origin: entry, parent: base.id}
 			l.attrN = attrLenOf(o, l.snap)
@@ -384,7 +397,7 @@ func (h *hist) apply(opIdx int, base *live, seed int64, protect map[int]bool) (m
 }
 
 func (h *hist) poolInsert(l *live, protect map[int]bool) {
-	if len(h.pool) < 8 {
+	if len(h.pool) < h.poolCap {
 		h.pool = append(h.pool, l)
 		return
 	}
@@ -410,6 +423,9 @@ func (h *hist) pickBase(wantTopo func(modeling.Topology) bool) *live {
 		if l.viaApp {
 			k = 5
 		}
+		if h.large && ref.AttrLen(l.m) > 20000 {
+			k *= 6
+		}
 		for i := 0; i < k; i++ {
 			w = append(w, l)
 		}
@@ -430,7 +446,10 @@ func (h *hist) drawDerive(appendBias bool) int {
 func history(c *run.Ctx) run.Result {
 	var res run.Result
 	r := c.Rng
-	h := &hist{c: c, res: &res, r: r}
+	h := &hist{c: c, res: &res, r: r, poolCap: 8, maxV: 400, maxI: 3000}
+	if c.Phase == "large-bases" {
+		h.large, h.poolCap, h.maxV, h.maxI = true, 5, 420000, 1300000
+	}
 	none := map[int]bool{}
 	// initial pool
 	m0, d0 := gen.Mesh(r, gen.MeshOpts{Topologies: []modeling.Topology{modeling.TriangleTopology}, Materials: true, MaxVerts: 30, MinVerts: 3, MinPrims: 1})
@@ -443,6 +462,24 @@ func history(c *run.Ctx) run.Result {
 	h.apply(appendOps[0], h.pool[0], r.Int63(), none)
 
 	steps := 10 + r.Intn(51)
+	if h.large {
+		// one base with tens of thousands of vertices (block / batch sizes ± 1): chunked or
+		// parallel rewrites that write into shared storage only show at such sizes
+		n := []int{32769, 65537, 70001, 98305, 100000, 131073}[c.Case%6]
+		lm, ld := largeBase(r, n)
+		h.add(lm, "large base "+ld, -1, false, none)
+		res.SetAdd("large_base_sizes", fmt.Sprint(n))
+		lb := h.pool[len(h.pool)-1]
+		h.apply(appendOps[0], lb, r.Int63(), map[int]bool{lb.id: true}) // and one with spare capacity
+		// every deriving and observing operation once on the large base itself (the base stays live)
+		for _, oi := range append(append([]int{}, deriveOps...), observeOps...) {
+			if t := table[oi].Topo; t != nil && !t(lb.m.Topology()) {
+				continue
+			}
+			h.apply(oi, lb, r.Int63(), map[int]bool{lb.id: true})
+		}
+		steps = 8 + r.Intn(9)
+	}
 	siblingSteps := 0
 	for s := 0; s < steps; s++ {
 		x := r.Float64()
@@ -516,4 +553,46 @@ func history(c *run.Ctx) run.Result {
 	}
 	res.Sample = map[string]any{"steps": steps, "first_operations": smp}
 	return res
+}
+
+// largeBase: a point or triangle mesh with n vertices, the last of them referenced.
+func largeBase(r *rand.Rand, n int) (modeling.Mesh, string) {
+	pos := make([]vector3.Float64, n)
+	nor := make([]vector3.Float64, n)
+	uv := make([]vector2.Float64, n)
+	op := make([]float64, n)
+	for i := range pos {
+		pos[i] = vector3.New(r.Float64()*1000-500, r.Float64()*1000-500, r.Float64()*1000-500)
+		nor[i] = vector3.New(0., 1., 0.)
+		uv[i] = vector2.New(r.Float64(), r.Float64())
+		op[i] = r.Float64()
+	}
+	topo := modeling.PointTopology
+	var idx []int
+	if r.Intn(2) == 0 {
+		topo = modeling.TriangleTopology
+		for i := 0; i+2 < n; i += 3 {
+			if r.Intn(12) == 0 && i > 30 {
+				continue // unreferenced vertices
+			}
+			idx = append(idx, i, i+1, i+2)
+		}
+		idx = append(idx, n-3, n-2, n-1)
+	} else if r.Intn(2) == 0 {
+		idx = r.Perm(n)
+	} else {
+		for i := 0; i < n; i++ {
+			if i >= n-64 || r.Intn(10) != 0 {
+				idx = append(idx, i)
+			}
+		}
+	}
+	m := modeling.NewMesh(topo, idx).SetFloat3Attribute(modeling.PositionAttribute, pos).SetFloat3Attribute(modeling.NormalAttribute, nor).
+		SetFloat2Attribute(modeling.TexCoordAttribute, uv).SetFloat1Attribute(modeling.OpacityAttribute, op)
+	if topo == modeling.TriangleTopology && r.Intn(2) == 0 {
+		np := len(idx) / 3
+		mats := gen.MaterialPool(r, 2)
+		m = m.SetMaterials([]modeling.MeshMaterial{{PrimitiveCount: np / 3, Material: mats[0]}, {PrimitiveCount: np - np/3, Material: mats[1]}})
+	}
+	return m, fmt.Sprintf("%s %d vertices %d indices", topo, n, len(idx))
 }
